@@ -27,7 +27,8 @@ EXTENDS Integers, Sequences, FiniteSets, TLC
 CONSTANT Prefixes          \* fallback prefixes in priority order, e.g. <<"p/">>
 
 Absent == [syn |-> FALSE, ext |-> "", inc |-> "", incpos |-> "", a |-> "none", b |-> "none", nest |-> FALSE, cap |-> FALSE, sa |-> FALSE,
-           z |-> FALSE, unk |-> FALSE, comp |-> FALSE, usec |-> FALSE, here |-> FALSE]
+           z |-> FALSE, unk |-> FALSE, comp |-> FALSE, usec |-> FALSE, here |-> FALSE,
+           v2 |-> FALSE]      \* v2: the same template with other literal text of the SAME length (M for L, [ for ( )
 Leaf == [Absent EXCEPT !.syn = TRUE, !.here = TRUE]
 Present(T) == {n \in DOMAIN T : T[n].here}
 
@@ -113,7 +114,7 @@ BlockText(T, entry, blk, lvl, fuel, mode) ==
   LET lin == Lineage(T, entry, blk) IN
   IF lvl > Len(lin) THEN "!nosuper!"
   ELSE LET t == lin[lvl] d == T[t] IN
-       blk \o t \o "("
+       blk \o t \o (IF d.v2 THEN "[" ELSE "(")
        \o (IF Supers(d, blk) /\ ~(blk = "a" /\ d.sa) THEN BlockText(T, entry, blk, lvl + 1, fuel, mode) ELSE "")
        \o (IF blk = "a" /\ d.nest /\ d.b # "none" THEN RB(T, entry, "b", fuel) ELSE "")
        \o (IF Supers(d, blk) /\ blk = "a" /\ d.sa THEN BlockText(T, entry, blk, lvl + 1, fuel, mode) ELSE "")
@@ -123,7 +124,7 @@ RB(T, entry, blk, fuel) == BlockText(T, entry, blk, 1, fuel, "")
 \* the top level of template t, with blocks resolved for `entry`
 Body(T, t, entry, fuel) ==
   LET d == T[t] IN
-  "L" \o t \o ";"
+  (IF d.v2 THEN "M" ELSE "L") \o t \o ";"
   \o (IF d.inc # "" /\ d.incpos = "body" THEN Own(T, IncOf(T, t), fuel - 1) ELSE "")
   \o (IF d.a # "none" THEN RB(T, entry, "a", fuel) ELSE "")
   \o (IF TopLevel(d, "b") THEN RB(T, entry, "b", fuel) ELSE "")
